@@ -27,6 +27,19 @@ MAGIC = b'Bitcoin Signed Message:\n'
 n = secp.n
 
 
+def _small_r():
+    out = []
+    r = 1
+    while len(out) < 4:
+        if secp.lift_x(r + n, 0) is not None:
+            out.append(r)
+        r += 1
+    return out
+
+
+R_SMALL = _small_r()
+
+
 def selftest():
     secp.selftest()
     b58.selftest()
@@ -101,6 +114,11 @@ def check_case(case):
         forms = [('ref', rid, comp, r0, s0), ('ref-otherflag', rid, not comp, r0, s0), ('ref-wrong-recid', rid ^ 1, comp, r0, s0),
                  ('ref-high-s', rid ^ 1, comp, r0, n - s0), ('ref-high-s-same-recid', rid, comp, r0, n - s0),
                  ('rand-r', case.get('frid', 0) & 1, comp, rr, s0), ('lib-r-ref-s', (hdr - 27) & 3, comp, r, s0)]
+        # recovery ids 2 and 3 mean R.x = r + n: only possible for r < p - n (about 2^128), never produced by a random nonce -
+        # crafted here with the smallest such r whose r + n is an x coordinate on the curve
+        forms += [('recid2-crafted', 2 + (case.get('frid', 0) & 1), comp, R_SMALL[case.get('frid', 0) % len(R_SMALL)], s0),
+                  ('recid3-crafted', 3 - (case.get('frid', 0) & 1), not comp, R_SMALL[(case.get('frid', 0) + 1) % len(R_SMALL)], s0),
+                  ('recid2-impossible', 2, comp, r0, s0)]
         for tag, i, c, fr, fs in forms:
             fsig = base64.b64encode(bytes([27 + i + (4 if c else 0)]) + fr.to_bytes(32, 'big') + fs.to_bytes(32, 'big')).decode('ascii')
             Q2 = secp.recover(want, fr, fs, i)
@@ -131,7 +149,7 @@ texts = st.one_of(st.sampled_from(['', 'a', 'hello', 'line\nbreak', 'héllo wör
 @st.composite
 def s_case(draw):
     c = {'secret': draw(secrets), 'compressed': draw(st.booleans()), 'message': draw(texts),
-         'others': [draw(secrets) for _ in range(3)]}
+         'others': [draw(secrets) for _ in range(3)], 'frid': draw(st.integers(0, 7))}
     if draw(st.integers(0, 40)) == 0:
         c['message'] = 'qß' if draw(st.booleans()) else 'z'
         c['rep'] = 35000
